@@ -16,8 +16,8 @@
    redraws of the same canvas object, clear() with arbitrary terminal contents and size changes.
    Partial display mode (no alternate buffer; display origin = terminal row 0, lines below blank, as many
    terminal rows as canvas rows): any history of draws, clear() and frames abandoned by a mid-draw SIGWINCH.
-   Zero-width (combining) characters are covered except as the first character of a run.  REFUTED
-   (statement kept): runs starting with a combining character, C0 control characters; partial display with a display origin below row 0 and size changes in
+   Zero-width (combining) characters are covered except as the first character of a run.  NOT proved
+   (statement kept, oracle only): runs starting with a combining character, C0 control characters; partial display with a display origin below row 0 and size changes in
    partial display mode (oracle only). *)
 From Coq Require Import ZArith List Bool Lia ZifyBool.
 Import ListNotations.
@@ -181,14 +181,11 @@ Theorem row_cells_is_threaded :
 Proof. exact row_cells_threaded_eq_lemma. Qed.
 Print Assumptions row_cells_is_threaded.
 
-(* --- REFUTED of the code as it is: draw_paints for ANY text (runs that start with a combining character,
-       C0 control characters).  Witness: on the bottom row _last_row slides in a run that holds only a
-       combining character and the mark is lost (corpus/C04, known finding
-       C04-bottom-row-run-starting-with-combining-character).  C0 control characters are measured as
-       zero columns by str_util and painted as '?' (one column) under UTF-8: reported separately. --- *)
-Theorem draw_paints_any_text_refuted : ~ draw_paints_any_text_full.
-Proof. exact any_text_refuted_lemma. Qed.
-Print Assumptions draw_paints_any_text_refuted.
+(* --- NOT PROVED (statement [draw_paints_any_text_full] in Model/PaintSpec.v, decided by the
+       correspondence and the oracle only): draw_paints for ANY text - runs that start with a combining
+       character, runs without columns, C0 control characters (dropped under UTF-8, '?' otherwise).  Before
+       the repairs ca038f3 / cfc4146 this statement was refuted by a witness (bottom row, a run holding only
+       a combining character), kept in corpus/C04/06_combining_characters.json. --- *)
 
 (* --- non-vacuity --- *)
 Definition ex_cfg : cfg :=
